@@ -328,6 +328,27 @@ PROPS["C19"] = {
                     "PortDS fields that no metric shows (log intervals, versions, asymmetry, master_only) and default_ds.domain / sdo_id / slave_only are carried through the JSON hop but not observable at the endpoint"],
 }
 
+PROPS["C20"] = {
+    "streams": [{"name": "exporter", "chunk_prefixes": ["EXP new"]}],
+    "model_is_spec": ["exporter"],
+    "spec_theorem": "in the model a client that goes away never leaves the exporter waiting, a well-formed GET is answered whatever the segmentation, and after any such connections a later well-formed request gets its 200 (C20.client_that_goes_away_is_finished, chunking_does_not_matter, later_request_is_answered)",
+    "rule": "exporter: the real exporter process (one per scenario) against sequences of one to four connections, then a well-formed request "
+            "with a valid observation document. Client behaviours: complete GET; GET split in two writes at every offset; the first 0, 1, 3, 4, "
+            "20, len-2, len-1 octets of a GET then an orderly close; the same then a reset (RST); 100 … 10000 octets without an end of headers "
+            "(around the 2048-octet buffer: 2047, 2048, 2049); complete requests with other verbs (POST, HEAD, PUT, OPTIONS, get, GETX); a "
+            "complete GET followed by a reset without reading the response; connect and leave. Observation socket while the connection is "
+            "served: valid document, syntactically invalid document, document cut in half, accept-and-close, nobody listening. Compared with "
+            "the Lean model per connection: what the client saw (200 / 500 / closed without response / nothing) and that the process is "
+            "alive. Independent oracle: the process has not exited, does not use CPU while idle (>= 10 ticks in 250 ms = spinning), a "
+            "well-formed GET gets 200 with a valid document and 500 otherwise, and the final request gets its 200 within 1.5 s. "
+            "distinct = distinct op lines",
+    "explanation": "Lean model of the accept / request loop over abstract read results; structural termination, liveness and segmentation-independence theorems; process-level correspondence and liveness oracle",
+    "assumptions": ["clients eventually go away (the property's premise): a client that stays connected and silent holds the single-threaded exporter, in the model (`waiting`) as in the code",
+                    "the observation socket closes its end (the exporter reads to EOF): a daemon that accepts and then neither writes nor closes would hold the exporter; not among the property's socket behaviours",
+                    "accept() errors (e.g. descriptor exhaustion) still terminate the exporter; they are not client behaviours on a connection",
+                    "timing: 'spin' is judged by CPU ticks of the process over a quarter of a second of silence, 'answered' by a 1.5 s deadline"],
+}
+
 PROPS["C17"] = {
     "streams": [{"name": "inst"}, {"name": "tlv"}, {"name": "timed"}, {"name": "threads", "model": False}],
     "model_is_spec": ["inst", "tlv", "timed"],
@@ -496,5 +517,5 @@ def replay_body(pid, stream, ops, idx):
     return ops[idx] + "\n"
 
 
-STATEFUL = {"inst", "bmca", "fml", "c07", "master", "view", "tlv", "timed", "filt", "loop"}
-SCENARIO_START = {"filt": ("FLT knew", "FLT bnew"), "loop": ("FLT knew", "FLT bnew")}
+STATEFUL = {"inst", "bmca", "fml", "c07", "master", "view", "tlv", "timed", "filt", "loop", "exporter"}
+SCENARIO_START = {"filt": ("FLT knew", "FLT bnew"), "loop": ("FLT knew", "FLT bnew"), "exporter": ("EXP new",)}
